@@ -186,9 +186,11 @@ def collect (s : St) : St :=
 def writePhase (s : St) : St :=
   { runOps noRec loopWrite s with pc := .test }
 
-/-- after the loop: what the generated lists say, then the thread ends -/
+/-- after the loop: what the generated lists say, then the thread ends; `output` (a local `LogFile`) goes out
+of scope there, and closing the stream writes out whatever stdio still buffers -/
 def finalPhase (s : St) : St :=
-  { runOps noRec finalWrite (runOps noRec finalCollect s) with pc := .done }
+  let t := runOps noRec finalWrite (runOps noRec finalCollect s)
+  { t with flushed := t.disk.length, pc := .done }
 
 /-- `stop()` up to (not including) `thread_.join()` -/
 def stopPrefix : List Op := stopOps.takeWhile (· ≠ .join)
